@@ -940,7 +940,7 @@ def locate(selection_sets, steps):
 
 
 class Refetchable:
-    __slots__ = ("kind", "name", "path", "entry_index", "local_index", "steps", "base", "varmap", "node", "oor", "under_pointer")
+    __slots__ = ("kind", "name", "path", "entry_index", "local_index", "steps", "base", "varmap", "node", "oor", "under_pointer", "index_map")
 
 
 def entry_varmap(opdef):
@@ -1028,6 +1028,83 @@ def analyze_c25(c, spec):
                 parsed[i] = None
                 stats["unparsable_refetch_operation(see C09)"] += 1
         by_path = {}
+
+        def problems_for(r, idx, where):
+            """Everything that is wrong with refetch query idx as THE query of refetchable r: [(rule, signature, what, witness)]."""
+            probs = []
+            pr = parsed.get(idx)
+            if pr is None:
+                return probs
+            text, rop = pr
+            want_name = f"{entry_parent}__{r.name}"
+            if rop.get("name") != want_name:
+                return [("operation-name", f"refetch-operation-name/{r.kind}", f"{where}: selected refetch query {idx} is named {rop.get('name')}, expected {want_name}",
+                         {"entrypoint": key, "path": r.path, "operation": text[:1500]})]
+            ex = exposed.get(r.name) if (r.kind == "imperative" and r.name != "__refetch") else None
+            if r.kind == "imperative" and r.name != "__refetch" and ex is None:
+                stats["imperative_fields_without_known_exposeField"] += 1
+                return probs
+            un, why = unwrap_refetch(rop, schema, r.kind, ex)
+            if un is None:
+                return [("wrapper", f"refetch-query-wrapper/{r.kind}/{e3.shape_of_error(why)[:50]}", f"{where}: refetch query {idx}: {why}",
+                         {"entrypoint": key, "path": r.path, "operation": text[:1500]})]
+            inner_sets, winfo = un
+            if ex is not None:
+                want_root = "mutation" if ex["root"] == schema.mutation_type else "query"
+                if rop["operation"] != want_root:
+                    probs.append(("wrapper", f"refetch-query-wrapper/{r.kind}/operation-type", f"{where}: exposed field {r.name} extends {ex['root']} but the refetch operation is a {rop['operation']}",
+                                  {"entrypoint": key, "path": r.path, "operation": text[:800]}))
+            allowed = nested[idx].get("allowedVariables") or []
+            if set(allowed) != set(op_var_names(rop)):
+                probs.append(("allowed-variables", f"allowed-variables-differ-from-operation-variables/{r.kind}",
+                              f"{where}: refetch query {idx} declares {sorted(op_var_names(rop))}, allowedVariables is {sorted(allowed)}",
+                              {"entrypoint": key, "path": r.path, "operation": text[:800]}))
+            # inner selection set == the subtree of the entrypoint's operation (or of the enclosing pointer's refetch query) at this position
+            base_sets = None
+            if r.base[0] == "entry":
+                base_sets = entry_base
+            else:
+                pr_ptr = parsed.get(r.base[1].entry_index) if r.base[1].entry_index is not None else None
+                if pr_ptr is not None:
+                    un2, _ = unwrap_refetch(pr_ptr[1], schema, "pointer", None)
+                    base_sets = un2[0] if un2 else None
+            if r.kind == "pointer":
+                # the entrypoint's operation does not contain what is behind a pointer: compare with what the readers below it read
+                req = reader_requirements(r.node.get("selections"), r.varmap, 0, stats)
+                have = canon_tree([x for ss in inner_sets for x in ss])
+                miss = tree_missing(req, have)
+                # several selections of the pointer at the same normalized position share one refetch query
+                for r2 in found:
+                    if r2 is not r and r2.kind == "pointer" and not r2.oor and r2.entry_index == idx:
+                        req = merge_trees(req, reader_requirements(r2.node.get("selections"), r2.varmap, 0, stats))
+                if miss:
+                    probs.append(("pointer-inner-selection", "pointer-refetch-query-lacks-field-read-below-the-pointer",
+                                  f"{where}: refetch query {idx} for pointer {r.name} lacks {json.dumps(miss)[:200]}",
+                                  {"entrypoint": key, "path": r.path, "operation": text[:1500], "missing": miss}))
+                extra = tree_extra(have, req)
+                if extra:
+                    probs.append(("pointer-inner-selection", "pointer-refetch-query-selects-field-not-read-below-the-pointer",
+                                  f"{where}: refetch query {idx} for pointer {r.name} additionally selects {json.dumps(extra)[:200]}",
+                                  {"entrypoint": key, "path": r.path, "operation": text[:1500], "extra": extra}))
+                return probs
+            if base_sets is None:
+                return probs
+            pos = locate(base_sets, r.steps)
+            if pos is None:
+                probs.append(("position", f"refetch-position-not-in-entrypoint-operation/{r.kind}",
+                              f"{where}: position {json.dumps(r.steps)[:200]} of {r.name} not found in the entrypoint's operation",
+                              {"entrypoint": key, "path": r.path, "steps": r.steps, "operation": rt['ops'][key]['text'][:1500]}))
+                return probs
+            want_tree = strip_typename(canon_tree([x for ss in pos for x in ss]))
+            have_tree = strip_typename(canon_tree([x for ss in inner_sets for x in ss]))
+            if want_tree != have_tree:
+                only_e = [x[0] for x in want_tree if x not in have_tree][:3]
+                only_r = [x[0] for x in have_tree if x not in want_tree][:3]
+                probs.append(("inner-selection", f"refetch-inner-selection-differs-from-entrypoint-subtree/{r.kind}",
+                              f"{where}: refetch query {idx} ({rop.get('name')}) selects a different set than the entrypoint at that position: only in entrypoint {only_e}, only in refetch {only_r}",
+                              {"entrypoint": key, "path": r.path, "steps": r.steps, "refetch_operation": text[:1500], "entrypoint_operation": rt['ops'][key]['text'][:1500]}))
+            return probs
+
         for r in found:
             by_path[json.dumps(r.path)] = r
             where = f"{key} at {'.'.join(p[1] for p in r.path)}"
@@ -1046,85 +1123,27 @@ def analyze_c25(c, spec):
                     viol("loadable-target", "loadable-field-entrypoint-is-for-another-field", f"{where}: @loadable {r.name} refers to entrypoint {tgt}",
                          {"entrypoint": key, "path": r.path, "target": tgt})
                 continue
-            pr = parsed.get(r.entry_index)
-            if pr is None:
+            if parsed.get(r.entry_index) is None:
                 continue
-            text, rop = pr
-            want_name = f"{entry_parent}__{r.name}"
             stats["static_refetch_queries_checked"] += 1
-            if rop.get("name") != want_name:
-                viol("operation-name", f"refetch-operation-name/{r.kind}", f"{where}: selected refetch query {r.entry_index} is named {rop.get('name')}, expected {want_name}",
-                     {"entrypoint": key, "path": r.path, "operation": text[:1500]})
-                continue
-            ex = exposed.get(r.name) if (r.kind == "imperative" and r.name != "__refetch") else None
-            if r.kind == "imperative" and r.name != "__refetch" and ex is None:
-                stats["imperative_fields_without_known_exposeField"] += 1
-                continue
-            un, why = unwrap_refetch(rop, schema, r.kind, ex)
-            if un is None:
-                viol("wrapper", f"refetch-query-wrapper/{r.kind}/{e3.shape_of_error(why)[:50]}", f"{where}: refetch query {r.entry_index}: {why}",
-                     {"entrypoint": key, "path": r.path, "operation": text[:1500]})
-                continue
-            inner_sets, winfo = un
-            if ex is not None:
-                want_root = "mutation" if ex["root"] == schema.mutation_type else "query"
-                if rop["operation"] != want_root:
-                    viol("wrapper", f"refetch-query-wrapper/{r.kind}/operation-type", f"{where}: exposed field {r.name} extends {ex['root']} but the refetch operation is a {rop['operation']}",
-                         {"entrypoint": key, "path": r.path, "operation": text[:800]})
-            allowed = nested[r.entry_index].get("allowedVariables") or []
-            if set(allowed) != set(op_var_names(rop)):
-                viol("allowed-variables", f"allowed-variables-differ-from-operation-variables/{r.kind}",
-                     f"{where}: refetch query {r.entry_index} declares {sorted(op_var_names(rop))}, allowedVariables is {sorted(allowed)}",
-                     {"entrypoint": key, "path": r.path, "operation": text[:800]})
-            # inner selection set == the subtree of the entrypoint's operation (or of the enclosing pointer's refetch query) at this position
-            base_sets = None
-            if r.base[0] == "entry":
-                base_sets = entry_base
-            else:
-                pr_ptr = parsed.get(r.base[1].entry_index) if r.base[1].entry_index is not None else None
-                if pr_ptr is not None:
-                    un2, _ = unwrap_refetch(pr_ptr[1], schema, "pointer", None)
-                    base_sets = un2[0] if un2 else None
             if r.kind == "pointer":
                 stats["static_pointer_queries_checked"] += 1
-                # the entrypoint's operation does not contain what is behind a pointer: compare with what the readers below it read
-                req = reader_requirements(r.node.get("selections"), r.varmap, 0, stats)
-                have = canon_tree([x for ss in inner_sets for x in ss])
-                miss = tree_missing(req, have)
-                # several selections of the pointer at the same normalized position share one refetch query
-                for r2 in found:
-                    if r2 is not r and r2.kind == "pointer" and not r2.oor and r2.entry_index == r.entry_index:
-                        req = merge_trees(req, reader_requirements(r2.node.get("selections"), r2.varmap, 0, stats))
-                if miss:
-                    viol("pointer-inner-selection", "pointer-refetch-query-lacks-field-read-below-the-pointer",
-                         f"{where}: refetch query {r.entry_index} for pointer {r.name} lacks {json.dumps(miss)[:200]}",
-                         {"entrypoint": key, "path": r.path, "operation": text[:1500], "missing": miss})
-                extra = tree_extra(have, req)
-                if extra:
-                    viol("pointer-inner-selection", "pointer-refetch-query-selects-field-not-read-below-the-pointer",
-                         f"{where}: refetch query {r.entry_index} for pointer {r.name} additionally selects {json.dumps(extra)[:200]}",
-                         {"entrypoint": key, "path": r.path, "operation": text[:1500], "extra": extra})
+            probs = problems_for(r, r.entry_index, where)
+            if not probs:
+                stats["static_refetch_queries_ok"] += 1
                 continue
-            if base_sets is None:
-                stats["positions_without_base"] += 1
+            # is the right query among the ones the enclosing reader was given, under another index?
+            alt = [j for j in (r.index_map or []) if j is not None and j != r.entry_index and parsed.get(j) is not None
+                   and parsed[j][1].get("name") == f"{entry_parent}__{r.name}" and not problems_for(r, j, where)]
+            if alt and len(r.path) > 1 and any(p[0] == "resolver" for p in r.path):
+                stats["refetch_queries_permuted"] += 1
+                viol("index-permutation", "usedRefetchQueries-are-ordered-differently-than-the-nested-reader's-refetch-indices",
+                     f"{where}: refetchQueryIndex {r.local_index} composes to refetch query {r.entry_index} ({probs[0][2][-160:]}); the matching query is {alt[0]}, "
+                     f"also passed to the enclosing reader but at another position of usedRefetchQueries",
+                     {"entrypoint": key, "path": r.path, "composed_index": r.entry_index, "matching_index": alt[0], "first_problem": probs[0][1]})
                 continue
-            pos = locate(base_sets, r.steps)
-            if pos is None:
-                stats["positions_not_located_in_entrypoint_operation"] += 1
-                viol("position", f"refetch-position-not-in-entrypoint-operation/{r.kind}",
-                     f"{where}: position {json.dumps(r.steps)[:200]} of {r.name} not found in the entrypoint's operation",
-                     {"entrypoint": key, "path": r.path, "steps": r.steps, "operation": rt['ops'][key]['text'][:1500]})
-                continue
-            stats["positions_located"] += 1
-            want_tree = strip_typename(canon_tree([x for ss in pos for x in ss]))
-            have_tree = strip_typename(canon_tree([x for ss in inner_sets for x in ss]))
-            stats["inner_selection_sets_compared"] += 1
-            if want_tree != have_tree:
-                only_e = [x[0] for x in want_tree if x not in have_tree][:3]
-                only_r = [x[0] for x in have_tree if x not in want_tree][:3]
-                viol("inner-selection", f"refetch-inner-selection-differs-from-entrypoint-subtree/{r.kind}",
-                     f"{where}: refetch query {r.entry_index} ({rop.get('name')}) selects a different set than the entrypoint at that position: only in entrypoint {only_e}, only in refetch {only_r}",
-                     {"entrypoint": key, "path": r.path, "steps": r.steps, "refetch_operation": text[:1500], "entrypoint_operation": rt['ops'][key]['text'][:1500]})
+            for rule, sig, what, wit in probs:
+                viol(rule, sig, what, wit)
         # reuse: how many positions hold refetchables under the same declaring reader alias chain tail
         for r in found:
             if not r.oor and r.kind != "resolver":
@@ -1227,7 +1246,7 @@ def analyze_c25(c, spec):
                             val = evaluate(subst(eo.canon_ast(av), st.varmap), given["variables"])
                             if val is not NOVALUE:
                                 stats["dynamic_loadable_arguments_checked"] += 1
-                                if sent.get(an) != val and not (val is None and an not in sent):
+                                if drop_none(sent.get(an)) != drop_none(val):
                                     viol("variables", "loadable-field-argument-not-sent", f"{where}: argument {an} should be {val!r}, sent {json.dumps(sent)[:160]}", wit)
     # non-triviality: a field with refetchable selections reached at >= 2 positions
     multi = [k for k, v in reuse.items() if v >= 2]
@@ -1243,6 +1262,15 @@ def analyze_c25(c, spec):
 
 
 NOVALUE = object()
+
+
+def drop_none(v):
+    """undefined (dropped by JSON) and null are the same to the server."""
+    if isinstance(v, dict):
+        return {k: drop_none(x) for k, x in v.items() if x is not None}
+    if isinstance(v, list):
+        return [drop_none(x) for x in v]
+    return v
 
 
 def evaluate(v, variables):
@@ -1294,7 +1322,7 @@ def static_walk(e, found, stats, varmap0):
                     r = Refetchable()
                     r.kind, r.name, r.path, r.oor = "resolver", n["alias"], path + [("resolver", n["alias"])], True
                     r.entry_index = r.local_index = None
-                    r.steps = r.base = r.varmap = r.node = None
+                    r.steps = r.base = r.varmap = r.node = r.index_map = None
                     found.append(r)
                 if "readerAst" not in child:
                     stats["recursive_reader_refs_not_followed"] += 1
@@ -1310,7 +1338,7 @@ def static_walk(e, found, stats, varmap0):
                     li = n["refetchQueryIndex"]
                     r.entry_index = index_map[li] if isinstance(li, int) and 0 <= li < len(index_map) else None
                     r.oor = r.entry_index is None
-                    r.steps, r.base, r.varmap = list(steps), base, varmap
+                    r.steps, r.base, r.varmap, r.index_map = list(steps), base, varmap, list(index_map)
                     found.append(r)
                     stats["static_client_pointers"] += 1
                     walk(n.get("selections"), p2, index_map, [], ("pointer", r), varmap, depth + 1)
@@ -1324,7 +1352,7 @@ def static_walk(e, found, stats, varmap0):
                 r = Refetchable()
                 r.kind = "imperative" if k == "ImperativelyLoadedField" else "loadable"
                 r.name, r.path, r.node = n["name"], path + [("field", n["alias"])], n
-                r.steps, r.base, r.varmap = list(steps), base, varmap
+                r.steps, r.base, r.varmap, r.index_map = list(steps), base, varmap, list(index_map)
                 r.oor = False
                 r.local_index = r.entry_index = None
                 if r.kind == "imperative":
